@@ -4,7 +4,7 @@ import numpy as np
 import impl, proto, compare
 from pystog import Pre_Proc
 from gen import rng_for
-from .common import tolist
+from .common import tolist, exceeds
 
 LEAN = "PystogVerif.Props.C20"
 ENTRIES = []
@@ -74,33 +74,33 @@ def evaluate(case):
         return []
     g, v = np.asarray(g, dtype=float), np.asarray(v, dtype=float)
     n = int((xmax - xmin) / xdiv) + 1
-    if len(g) != n or abs(g[0] - xmin) > 0 or (g > xmax + 1e-12).any() or np.abs(np.diff(g) - xdiv).max(initial=0.0) > 1e-9:
+    if len(g) != n or abs(g[0] - xmin) > 0 or (g > xmax + 1e-12).any() or exceeds(np.abs(np.diff(g) - xdiv).max(initial=0.0), 1e-9):
         fails.append("grid is not xmin + k*xdiv, k < floor((xmax-xmin)/xdiv)+1, within xmax")
     rg, rv = hat_reference(x, y, xmin, xdiv, xmax)
     ok = np.isfinite(rv)
     # points that sit within 1e-9 of a node may change bins through rounding of (x-xmin)/xdiv: compare with a tolerance
     # scaled by the data spread (a hat weight changes continuously there)
-    if np.abs(v - rv)[ok].max(initial=0.0) > 1e-6 * max(1.0, float(np.abs(y).max())):
+    if exceeds(np.abs(v - rv)[ok].max(initial=0.0), 1e-6 * max(1.0, float(np.abs(y).max()))):
         k = int(np.argmax(np.abs(v - rv) * ok))
         fails.append(f"output at grid point {g[k]!r} is {v[k]!r}; hat-weighted average of the points within one bin width is {rv[k]!r}")
     _, vc = Pre_Proc.rebin(x, np.full_like(y, case["c"]), xmin, xdiv, xmax)
-    if np.abs(np.asarray(vc) - case["c"]).max() > 1e-12 * max(1.0, abs(case["c"])):
+    if exceeds(np.abs(np.asarray(vc) - case["c"]).max(), 1e-12 * max(1.0, abs(case["c"]))):
         fails.append("a constant is not preserved")
     _, vz = Pre_Proc.rebin(x, z, xmin, xdiv, xmax)
     _, vl = Pre_Proc.rebin(x, case["a"] * y + case["b"] * z, xmin, xdiv, xmax)
-    if np.abs(np.asarray(vl) - (case["a"] * v + case["b"] * np.asarray(vz))).max() > 1e-10 * max(1.0, float(np.abs(y).max()) * 3):
+    if exceeds(np.abs(np.asarray(vl) - (case["a"] * v + case["b"] * np.asarray(vz))).max(), 1e-10 * max(1.0, float(np.abs(y).max()) * 3)):
         fails.append("not linear in y")
     inr = (x >= xmin) & (x <= xmax)
     if (v < y[inr].min() - 1e-12).any() or (v > y[inr].max() + 1e-12).any():
         fails.append("output outside [min, max] of the in-range data")
     if case["onnodes"] and not case["shuffled"]:
         m = min(len(v), len(y))
-        if np.abs(v[:m] - y[:m]).max() > 1e-7 * max(1.0, float(np.abs(y).max())):
+        if exceeds(np.abs(v[:m] - y[:m]).max(), 1e-7 * max(1.0, float(np.abs(y).max()))):
             fails.append("data already on the grid (one per node) do not come back unchanged")
     p = np.asarray(case["perm"])
     try:
         _, vp = Pre_Proc.rebin(x[p], y[p], xmin, xdiv, xmax)
-        if np.abs(np.asarray(vp) - v).max() > 1e-10 * max(1.0, float(np.abs(y).max())):
+        if exceeds(np.abs(np.asarray(vp) - v).max(), 1e-10 * max(1.0, float(np.abs(y).max()))):
             fails.append("result depends on the input order")
     except ZeroDivisionError:
         fails.append("result depends on the input order: a permutation of the same points makes rebin raise ZeroDivisionError (a populated bin came out empty)")
